@@ -394,6 +394,45 @@ def run(chk, repo):
     chk.rule("C18.unpackers", "WavStream._unpackers: keys 8, 16, 24, 32; Struct formats little-endian with calcsize == "
                               "width/8 + prefix length; 24 bits: one zero byte prefixed, result >> 8; 8 bits: ord")
     up = repo.find_assign(LW, "_unpackers", scope="WavStream")
+    if isinstance(up, ast.Call) and unparse(up.func) in ("dict", "OrderedDict") and len(up.args) == 1 and not up.keywords \
+            and isinstance(up.args[0], (ast.GeneratorExp, ast.ListComp)) and len(up.args[0].generators) == 1 \
+            and not up.args[0].generators[0].ifs and isinstance(up.args[0].generators[0].target, ast.Name) \
+            and isinstance(up.args[0].generators[0].iter, (ast.List, ast.Tuple)) \
+            and isinstance(up.args[0].elt, ast.Tuple) and len(up.args[0].elt.elts) == 2:
+        # dict((bits, make(bits)) for bits in [8, 16, ..]): the table it spells out, entry by entry
+        g_ = up.args[0].generators[0]
+
+        class _K(ast.NodeTransformer):
+            def __init__(self, val):
+                self.val = val
+
+            def visit_Name(self, n_):
+                if n_.id == g_.target.id and isinstance(n_.ctx, ast.Load):
+                    return ast.copy_location(ast.parse(unparse(self.val), mode="eval").body, n_)
+                return n_
+        ks_, vs_ = [], []
+        for item_ in g_.iter.elts:
+            ks_.append(_K(item_).visit(ast.parse(unparse(up.args[0].elt.elts[0]), mode="eval").body))
+            v_new = _K(item_).visit(ast.parse(unparse(up.args[0].elt.elts[1]), mode="eval").body)
+            ast.copy_location(v_new, up)
+            for n_ in ast.walk(v_new):
+                n_.lineno = getattr(up, "lineno", 1)
+                n_.col_offset = 0
+            vs_.append(v_new)
+        up = ast.copy_location(ast.Dict(keys=ks_, values=vs_), up)
+    elif isinstance(up, ast.DictComp) and len(up.generators) == 1 and not up.generators[0].ifs \
+            and isinstance(up.generators[0].target, ast.Name) and isinstance(up.generators[0].iter, (ast.List, ast.Tuple)):
+        g_ = up.generators[0]
+        ks_, vs_ = [], []
+        for item_ in g_.iter.elts:
+            sub_ = lambda e_: ast.parse(unparse(e_).replace(g_.target.id, unparse(item_)), mode="eval").body
+            ks_.append(sub_(up.key))
+            vs_.append(sub_(up.value))
+        for v_new in vs_:
+            for n_ in ast.walk(v_new):
+                n_.lineno = getattr(up, "lineno", 1)
+                n_.col_offset = 0
+        up = ast.copy_location(ast.Dict(keys=ks_, values=vs_), up)
     chk.require(isinstance(up, ast.Dict), "WavStream._unpackers is not a dict literal")
     from .. import bytecodec as bc
     keys = []
